@@ -8,15 +8,17 @@ Ltac Zify.zify_post_hook ::= Z.to_euclidean_division_equations.
 Open Scope string_scope.
 Open Scope Z_scope.
 
-(* io.py ImageFileReader.read_frame_raw: the index guard and the number of bytes read by the native branch;
+(* io.py ImageFileReader.read_frame_raw (state after the D118 fix): the index guard, the byte offset of the frame
+   relative to the first frame and the number of bytes read by the native branch - all from the CURRENT metadata;
    parameters of the generated definition: index, self.number_of_frames, self._bytes_per_frame_uncompressed,
-   metadata.BitsAllocated, self._pixels_per_frame.  The model's read_frame_raw_native / read_frame_raw_file use
-   the same guard and lazy_nbytes; _bytes_per_frame_uncompressed = lazy_bpf is obligation bytes_per_frame/C05. *)
+   metadata.BitsAllocated, self._pixels_per_frame.  The model's read_frame_raw_cur (= read_frame_raw_native /
+   read_frame_raw_file, C05_reader_native_offset_computed) uses the same guard, lazy_offset and lazy_nbytes;
+   _bytes_per_frame_uncompressed = lazy_bpf is obligation bytes_per_frame/C05. *)
 Theorem tint_read_frame_nbytes_C05 : forall i n bits npx,
   t_read_frame_nbytes i n (lazy_bpf bits npx) bits npx
-  = if (i <? 0) || (i >=? n) then Err "ValueError" else Ok (lazy_nbytes bits npx i).
+  = if (i <? 0) || (i >=? n) then Err "ValueError" else Ok (lazy_offset bits npx i, lazy_nbytes bits npx i).
 Proof.
-  intros. unfold t_read_frame_nbytes, lazy_nbytes. cbv zeta.
+  intros. unfold t_read_frame_nbytes, lazy_offset, lazy_nbytes. cbv zeta.
   destruct ((i <? 0) || (i >=? n)); cbn [bind]; [reflexivity|].
   unfold ret. cbn [bind]. destruct (bits =? 1); reflexivity.
 Qed.
